@@ -156,16 +156,19 @@ impl CacheCallback for HCallbackFull {
     type Value = Val;
     fn on_exit(&self, val: Option<Val>) {
         log(EvKind::Cb { kind: CbKind::Exit, val, index: 0, conflict: 0, cost: 0, created_ns: 0, ttl_ns: 0 });
+        reenter(&val);
     }
     fn on_evict(&self, item: Item<Val>) {
         let (c, t) = item.exp.verif_parts();
         let item = mask_item(item);
         log(EvKind::Cb { kind: CbKind::Evict, val: item.val, index: item.index, conflict: item.conflict, cost: item.cost, created_ns: c, ttl_ns: t });
+        reenter(&item.val);
     }
     fn on_reject(&self, item: Item<Val>) {
         let (c, t) = item.exp.verif_parts();
         let item = mask_item(item);
         log(EvKind::Cb { kind: CbKind::Reject, val: item.val, index: item.index, conflict: item.conflict, cost: item.cost, created_ns: c, ttl_ns: t });
+        reenter(&item.val);
     }
 }
 
@@ -174,6 +177,7 @@ impl CacheCallback for HCallbackExitOnly {
     type Value = Val;
     fn on_exit(&self, val: Option<Val>) {
         log(EvKind::Cb { kind: CbKind::Exit, val, index: 0, conflict: 0, cost: 0, created_ns: 0, ttl_ns: 0 });
+        reenter(&val);
     }
 }
 
@@ -182,11 +186,13 @@ impl CacheCallback for HCallbackExitEvict {
     type Value = Val;
     fn on_exit(&self, val: Option<Val>) {
         log(EvKind::Cb { kind: CbKind::Exit, val, index: 0, conflict: 0, cost: 0, created_ns: 0, ttl_ns: 0 });
+        reenter(&val);
     }
     fn on_evict(&self, item: Item<Val>) {
         let (c, t) = item.exp.verif_parts();
         let item = mask_item(item);
         log(EvKind::Cb { kind: CbKind::Evict, val: item.val, index: item.index, conflict: item.conflict, cost: item.cost, created_ns: c, ttl_ns: t });
+        reenter(&item.val);
     }
 }
 
@@ -331,6 +337,20 @@ static LOG: Mutex<Vec<Ev>> = Mutex::new(Vec::new());
 
 /// scheduler step at which the latest event was logged (livelock detection)
 pub static LAST_LOG_STEP: std::sync::atomic::AtomicU64 = std::sync::atomic::AtomicU64::new(0);
+
+/// handle for callbacks that call back into the cache under test (Cfg::reentrant_cb)
+pub static MAIN_API: Mutex<Option<Box<dyn Api>>> = Mutex::new(None);
+
+/// From inside a callback: read the TTL of the value's key on the same cache (takes the shard's
+/// read lock, touches neither metrics nor the lookup ring, so no oracle sees it).  If the library
+/// called us while holding that shard's lock, this never returns.
+fn reenter(val: &Option<Val>) {
+    let Some(v) = val else { return };
+    let a = MAIN_API.lock().unwrap_or_else(|e| e.into_inner()).as_ref().map(|a| a.clone_box());
+    if let Some(a) = a {
+        let _ = a.get_ttl(v.key);
+    }
+}
 
 /// keys of the decoy cache (a second cache in the same process) live far away from every plan's keys
 pub const DECOY_BASE: u64 = 0x7777_0000_0000_0000;
@@ -1279,6 +1299,7 @@ pub fn run_plan(plan: &Plan) {
             let sz = rt::atomic(|| a.snapshot(&[]).item_size);
             log(EvKind::Built { ok: true, err: String::new(), item_size: sz });
             log_keymap(a.as_ref(), &plan.universe);
+            *MAIN_API.lock().unwrap_or_else(|e| e.into_inner()) = if plan.cfg.reentrant_cb { Some(a.clone_box()) } else { None };
             a
         }
         Ok(Err(e)) => {
@@ -1407,6 +1428,7 @@ pub fn run_plan(plan: &Plan) {
         log(EvKind::Checkpoint { id: cp, snap, quiescent: true });
         cp += 1;
     }
+    *MAIN_API.lock().unwrap_or_else(|e| e.into_inner()) = None;
     match plan.finale {
         Finale::None => {
             std::mem::forget(api);
